@@ -8,7 +8,7 @@ enumerated; the event log of each schedule is validated by TraceOrchestrator.
 """
 import glob, hashlib, importlib.util, itertools, json, os, random, re, shutil, sys, tempfile
 
-REPO_SCRIPT = "/repo/nextflow/scripts/batchie.py"
+REPO_SCRIPT = os.path.join(os.environ.get("VERIF_REPO", "/repo"), "nextflow/scripts/batchie.py")
 KIND_FILE = {"trainscr": ("prepare", "training.screen.h5"), "testscr": ("prepare", "test.screen.h5"),
              "thetas": ("train", "thetas_0.h5"), "dist": ("distance", "distance_matrix_chunk_0.h5"),
              "selected": ("select", "selected_plate"), "advanced": ("reveal", "advanced_screen.h5"),
